@@ -412,6 +412,11 @@ func GoNamed(name string, f func()) int {
 // racing with the previous execution's threads.
 var epochSync uint64
 
+// ProcessBoundary gives the calling (harness) thread a happens-before edge from every thread
+// that has finished so far: used where a harness models "the old process is gone, a new one
+// starts" inside one execution and re-initialises package-level state.
+func ProcessBoundary() { atomic.LoadUint64(&epochSync) }
+
 func threadMain(id int, f func()) {
 	waitFirst(id)
 	defer threadExit(id)
@@ -820,6 +825,7 @@ type Config struct {
 // Result of one execution.
 type Result struct {
 	Choices    []int
+	Alts       []int // number of alternatives at each decision
 	Deviations int
 	FailSig    string
 	FailMsg    string
@@ -855,7 +861,7 @@ func Explore(cfg Config, body func()) Stats {
 			st.MaxDepth = nchoices
 		}
 		if cfg.OnExec != nil {
-			r := &Result{Choices: append([]int{}, choices[:nchoices]...), Deviations: spent, FailSig: failSig, FailMsg: failMsg, Steps: steps, VirtualNs: now}
+			r := &Result{Choices: append([]int{}, choices[:nchoices]...), Alts: append([]int{}, nalts[:nchoices]...), Deviations: spent, FailSig: failSig, FailMsg: failMsg, Steps: steps, VirtualNs: now}
 			if keepTrace {
 				r.Trace = append([]string{}, trace[:ntrace]...)
 			}
